@@ -1,6 +1,7 @@
 package abci
 
 import (
+	"sort"
 	"bytes"
 	"fmt"
 	"testing"
@@ -220,7 +221,7 @@ func genAttack(rt *rapid.T, w *chain.World, n *chain.Node, c *harness.Case) atta
 	}
 	fee := coins(chain.DefaultFee)
 	e := w.NextEntropy()
-	kind := rapid.SampledFrom([]string{"send", "nodeUnstake", "nodeUnjail", "nodeEdit", "appStake", "appUnstake", "appTransfer", "changeParam", "dao", "upgrade", "multisigSend"}).Draw(rt, "msgKind")
+	kind := rapid.SampledFrom([]string{"send", "nodeUnstake", "nodeUnjail", "nodeEdit", "appStake", "appUnstake", "appTransfer", "changeParam", "dao", "upgrade", "multisigSend", "outputEditsDelegators", "outputEditsDelegators"}).Draw(rt, "msgKind")
 	if appOwnerAttack {
 		kind = "appTransfer"
 	}
@@ -297,6 +298,46 @@ func genAttack(rt *rapid.T, w *chain.World, n *chain.Node, c *harness.Case) atta
 			return selfpayTx(mk(chain.Addr(atk)), fmt.Sprintf("%s %s with signer field = attacker", kind, w.KeyName(v)))
 		}
 		return noauthTx(mk(chain.Addr(v)), v, fmt.Sprintf("%s %s with signer field = operator", kind, w.KeyName(v)))
+	case "outputEditsDelegators":
+		// the OUTPUT key of a node may sign edit-stakes, but the reward delegators change only when the operator signs: the
+		// output key re-submits the node's record with one delegator address replaced by itself (same number of entries,
+		// same shares)
+		for idx, v := range w.Nodes {
+			rec, found := n.App.VerifNodesKeeper().GetValidator(n.Ctx(), chain.Addr(v))
+			out := w.Outputs[idx]
+			if !found || !rec.IsStaked() || rec.OutputAddress == nil || rec.OutputAddress.Equals(rec.Address) || !rec.OutputAddress.Equals(chain.Addr(out)) || len(rec.RewardDelegators) == 0 {
+				continue
+			}
+			if _, self := rec.RewardDelegators[chain.Addr(out).String()]; self {
+				continue
+			}
+			dkeys := make([]string, 0, len(rec.RewardDelegators))
+			for d := range rec.RewardDelegators {
+				dkeys = append(dkeys, d)
+			}
+			sort.Strings(dkeys)
+			victimD := dkeys[rapid.IntRange(0, len(dkeys)-1).Draw(rt, "replacedDelegator")]
+			nd := map[string]uint32{}
+			for d, sh := range rec.RewardDelegators {
+				if d == victimD {
+					nd[chain.Addr(out).String()] = sh
+				} else {
+					nd[d] = sh
+				}
+			}
+			atk = out
+			c.Label("output-key-edits-delegators")
+			msg := &nodesTypes.MsgStake{PublicKey: v.PublicKey(), Chains: rec.Chains, Value: rec.StakedTokens, ServiceUrl: rec.ServiceURL, Output: rec.OutputAddress, RewardDelegators: nd}
+			return selfpayTx(msg, fmt.Sprintf("edit-stake %s by its output key replacing reward delegator %s.. with itself (same entry count and shares)", w.KeyName(v), victimD[:8]))
+		}
+		{
+			v := w.Spare[2]
+			if v.PublicKey().Equals(atk.PublicKey()) {
+				v = w.Spare[1]
+			}
+			msg := &nodesTypes.MsgSend{FromAddress: chain.Addr(v), ToAddress: chain.Addr(atk), Amount: sdk.NewInt(12)}
+			return noauthTx(msg, v, "send 12 from a spare key to attacker")
+		}
 	case "nodeEdit":
 		idx := rapid.IntRange(0, len(w.Nodes)-1).Draw(rt, "node")
 		v := w.Nodes[idx]
